@@ -219,6 +219,7 @@ def shared_dict(name, k, v):
     return model('dict:' + name, fields={'items': 'Map[%s,%s]' % (k, v)}, external=True)
 
 
+EXT_VALUES = {}      # dotted name of a value of an external module (socket.AF_INET, os.sep) -> (type, literal or None)
 GLOBAL_ALIASES = {}  # name usable in contract clauses -> qualname of the module global
 
 
@@ -227,3 +228,8 @@ def global_const(qualname, ty, alias=None):
     GLOBAL_CONSTS[qualname] = ty
     if alias:
         GLOBAL_ALIASES[alias] = qualname
+
+
+def ext_value(dotted, ty, literal=None):
+    """A constant of an external module used as a value (socket.AF_INET: opaque; os.sep: '/')."""
+    EXT_VALUES[dotted] = (ty, literal)
